@@ -5,6 +5,7 @@ from vlib import *
 PROP = 'C14'
 IMPORTS = 'Model.Diff Corr.C14'
 KINDS = ('LABELS', 'PARSE', 'ELAB')
+import time as _time
 
 def eval_robust(tag, imports, ty, cases, shard):
     """coq_eval_cases; shards that die (per-shard timeout on a loaded machine) are re-run once in smaller shards"""
@@ -35,8 +36,12 @@ def replay_fields(text):
 def main(argv):
     tier, seed, replay = tier_and_seed(argv)
     v = Verdict(PROP, tier, seed)
+    t_start = _time.time()
     proofs_ok, h_ok, unrec = standard_proof_steps(
         v, PROP, ['diffflags'], ['theories/Props/C14.vo'], ['c14'], corr_targets=['theories/Corr/C14.vo'])
+    t_built = _time.time()
+    # when tie 1 or a proof is broken the remaining job is to find a failing input: half the volume is enough
+    degraded = (not proofs_ok) or bool(unrec)
 
     cases, texts, kinds = [], [], []
     oracle_fail = []
@@ -46,10 +51,13 @@ def main(argv):
         lines = []
         corpus_flags = sorted(glob.glob(os.path.join(VERIF, 'corpus', 'C14', '*.flags')))
         corpus_text = sorted(glob.glob(os.path.join(VERIF, 'corpus', 'C14', '*.txt')))
+        corpus_run = sorted(glob.glob(os.path.join(VERIF, 'corpus', 'C14', '*.run')))
         if replay:
             r = json.load(open(replay))
-            corpus_flags, corpus_text = [], []
-            if r.get('text_text'):
+            corpus_flags, corpus_text, corpus_run = [], [], []
+            if r.get('run_text'):
+                p = os.path.join(wd, 'replay.run'); open(p, 'w').write(r['run_text']); corpus_run = [p]
+            elif r.get('text_text'):
                 p = os.path.join(wd, 'replay.txt'); open(p, 'w').write(r['text_text']); corpus_text = [p]
             elif r.get('flags_text') is not None:
                 p = os.path.join(wd, 'replay.flags'); open(p, 'w').write(r['flags_text']); corpus_flags = [p]
@@ -57,9 +65,11 @@ def main(argv):
                 lines.append('%s\t%s\t%s' % (r.get('kind', 'PARSE'), r['case'], r.get('source', '')))
         for f in corpus_flags: lines += run_harness(v, ['flags', f], seed)
         for f in corpus_text: lines += run_harness(v, ['text', f], seed)
+        for f in corpus_run: lines += run_harness(v, ['run', f], seed)
         if not replay:
-            n = {'quick': (24, 500, 700), 'thorough': (600, 15000, 20000)}[tier if tier in ('quick', 'thorough') else 'quick']
-            lines += run_harness(v, ['labels', n[0]], seed) + run_harness(v, ['parse', n[1]], seed) + run_harness(v, ['elab', n[2]], seed)
+            n = {'quick': (24, 500, 700, 400), 'thorough': (600, 15000, 20000, 20000)}[tier if tier in ('quick', 'thorough') else 'quick']
+            if degraded: n = tuple(max(8, x // 2) for x in n)
+            lines += run_harness(v, ['labels', n[0]], seed) + run_harness(v, ['parse', n[1]], seed) + run_harness(v, ['elab', n[2]], seed) + run_harness(v, ['runs', n[3]], seed)
         for l in lines:
             parts = l.split('\t')
             if parts[0] == 'ORACLE-FAIL': oracle_fail.append(parts[1:])
@@ -68,6 +78,7 @@ def main(argv):
                 kinds.append(parts[0]); cases.append(parts[1]); texts.append(parts[2] if len(parts) > 2 else '')
     hist = {}
     for k in kinds: hist[k] = hist.get(k, 0) + 1
+    t_harness = _time.time()
 
     # (O) implementation-level oracle failures: violations with a concrete input
     seen = set()
@@ -81,6 +92,8 @@ def main(argv):
         if len(seen) > 6: break
         rp = {'class': cls, 'detail': f}
         rp.update(replay_fields(src))
+        mrun = re.match(r'flags=\[([^\]]*)\] run=\[([^\]]*)\]', src.strip())
+        if mrun: rp = {'class': cls, 'detail': f, 'run_text': '# flags: %s\n%s\n' % (mrun.group(1), mrun.group(2))}
         if not what.startswith('nested') and 'text_text' in rp and ('label round trip' in what or 'decompile+recompile' in what): rp.pop('text_text')
         v.violation('implementation-level oracle: ' + what, rp)
 
@@ -115,15 +128,23 @@ def main(argv):
         bad = [o for o in v.obligations if not o[1]]
         v.violation('obligation failed: %s' % bad[0][0], {'class': 'c14-obligation', 'broken': [list(b) for b in bad]}, no_failing_input=True)
 
+    t_eval = _time.time()
+    v.notes.append('timing: proofs+translators+coq build+audit+cargo build %.0fs, harness %.0fs, model evaluation in coq %.0fs%s' % (
+        t_built - t_start, t_harness - t_built, t_eval - t_harness, ' (volume halved: tie 1 / proofs broken)' if degraded else ''))
+    nruns = 0
+    for st in stats:
+        mr = re.search(r'"runs": (\d+)', st)
+        if mr: nruns += int(mr.group(1))
     nlab = hist.get('LABELS', 0)
     v.coverage.update({
         'evaluations': len(cases) + 255 * nlab,
         'distinct_nontrivial': distinct_count([c for c in cases if 'IOk' in c]),
-        'rule': 'LABELS: seeded random `!difficulty_flags` sections (0-10 definitions, names from a 16-character pool, default-on and default-off, repeated bits, every 4th set allowed to re-point names, occasional invalid lines) applied with Truth::apply_mapfile_str; then ALL 256 masks through mask_to_diff_label and parse_diff_string (exhaustive in the mask), compared with Model.Diff; PARSE: random label strings (names, digits, + - *, unknown and invalid characters) through parse_diff_string; ELAB: `{"label"}: ins(args);` with 1-3 arguments, switches of 2-8 cases with random holes, every 5th statement with nested switches, random labels (names, digits, *, -names) under random consistent flag sets, through compile_olde_ecl; the emitted copies (mask, values) compared with Model.Diff.elaborate. evaluations counts every (flag set, mask) pair; distinct = distinct case terms with an IOk result',
+        'rule': 'LABELS: seeded random `!difficulty_flags` sections (0-10 definitions, names from a 24-character pool incl. all digits; one set in five moves digit names onto other bits without re-pointing, default-on and default-off, repeated bits, every 4th set allowed to re-point names, occasional invalid lines) applied with Truth::apply_mapfile_str; then ALL 256 masks through mask_to_diff_label and parse_diff_string (exhaustive in the mask), compared with Model.Diff; PARSE: random label strings (names, digits, + - *, unknown and invalid characters) through parse_diff_string; ELAB: `{"label"}: ins(args);` with 1-3 arguments, switches of 2-8 cases with random holes, every 5th statement with nested switches, random labels (names, digits, *, -names) under random consistent flag sets, through compile_olde_ecl; the emitted copies (mask, values) compared with Model.Diff.elaborate; RUNS (oracle only, not counted in evaluations): stored runs of 2-8 same-opcode instructions with arbitrary masks (contiguous partitions, holes, gaps, overlaps, shuffled single bits, random; default-on flag bits equal/varying/absent; TH08-style and random flag sets) -> decompile_olde_ecl with switch recognition -> recompile. evaluations counts every (flag set, mask) pair; distinct = distinct case terms with an IOk result',
         'traces_validated_against_impl': len(cases),
         'case_kinds': hist,
+        'oracle_only_runs': nruns,
         'generator_stats': stats,
-        'oracle': 'labels: every mask\'s label parses back to the mask, and a script carrying all 256 masks survives decompile_olde_ecl + format + parse + compile_olde_ecl; switches: on every difficulty d < number of cases with bit d in (label mask & difficulty bits) exactly one emitted instruction has bit d and it carries the values of the generator\'s own switch semantics at d; every copy keeps the label\'s default-on bits',
+        'oracle': 'labels: every mask\'s label parses back to the mask, and a script carrying all 256 masks survives decompile_olde_ecl + format + parse + compile_olde_ecl; switches: on every difficulty d < number of cases with bit d in (label mask & difficulty bits) exactly one emitted instruction has bit d and it carries the values of the generator\'s own switch semantics at d; every copy keeps the label\'s default-on bits; runs: after decompile (switch recognition on) + recompile, on every difficulty 0..7 the sequence of (time, opcode, arguments) of the instructions whose mask has that bit is unchanged',
         'samples': [{'kind': k, 'case': c[:500], 'source': t[:300]} for k, c, t in list(zip(kinds, cases, texts))[:1] + list(zip(kinds, cases, texts))[-2:]],
         'exhaustive': False,
         'exhaustive_in': 'the 256 masks, for each sampled flag-definition set; the range structure of explicit_case_bitmasks is checked for all 256 masks x all explicit-position patterns of 2..8 cases inside Coq (Proofs/Diff.v check_all_ok)',
@@ -134,4 +155,4 @@ def main(argv):
         trusted_base=['modelled, not verified: Model/Diff.v is a hand-written restatement of context/diff_flags.rs, bitset.rs (8-bit use), diff_switch_utils.rs and llir/lower.rs elaborate_diff_switches, parameterised by the constants gen/diffflags.py reads from diff_flags.rs, llir/lower.rs and diff_switch_utils.rs (NUM_BITS, flag-name character ranges, built-in names, the characters - + *, the shape of define_flag, whether define_flag_from_mapfile rejects re-pointed names, the text of elaborate_diff_switches / select_diff_switch_case / explicit_case_bitmasks, whether nested switches contribute explicit positions)'],
         assumptions=['C14_label_roundtrip holds under the invariant Consistent (every bit prints as a name that parses back to it); a mapfile that re-points a printed name breaks it (known finding, fixes/c14-flag-name-repoint.diff)',
                      'C14_elaborate_exactly_one is for flat switches; a switch nested inside a switch case is mis-elaborated (known finding, fixes/c14-nested-diff-switch.diff)',
-                     'the assignment path for non-simple switch cases (stackless.rs lower_assign_diff_switch) and the inverse recognize_diff_switch are not modelled; the decompile-recompile oracle exercises recognize_diff_switch only on the 256-mask carrier script'])
+                     'the assignment path for non-simple switch cases (stackless.rs lower_assign_diff_switch) and the inverse recognize_diff_switch are not modelled; recognize_diff_switch is covered by oracle only (256-mask carrier script; stored instruction runs with arbitrary masks compared per difficulty after decompile + recompile)'])
